@@ -66,7 +66,7 @@ func c15Digest(c c15Case) []byte {
 		return nil
 	case "long":
 		// digests longer than any algorithm's: lengths around the widths of length prefixes (127/128, 255/256, 16383/16384)
-		return gen.DetBytes("c15-long", []int{65, 100, 127, 128, 129, 200, 255, 256, 257, 1000, 16383, 16384, 16385}[c.Mut.Pos%13])
+		return gen.DetBytes("c15-long", []int{65, 100, 127, 128, 129, 200, 255, 256, 257, 1000}[c.Mut.Pos%10])
 	case "other-type":
 		return refHash(1+(c.HT+1)%3, c.Data)
 	default:
@@ -214,7 +214,7 @@ func checkC15(c c15Case) (o vstat.Outcome) {
 
 var specC15 = vstat.Spec[c15Case]{
 	Property: "C15",
-	Rule: "data 0..100 B, hash type in 0..5 / 1..3 / any int32, digest correct / bit-flipped / truncated / extended / empty / of another algorithm / random / over-long (65..16385 bytes, around length-prefix widths); mutated wire encodings and arbitrary base58 text; " +
+	Rule: "data 0..100 B, hash type in 0..5 / 1..3 / any int32, digest correct / bit-flipped / truncated / extended / empty / of another algorithm / random / over-long (65..1000 bytes, around length-prefix widths); mutated wire encodings and arbitrary base58 text; " +
 		"oracle: std-lib sha256/sha1 and blake3 digests; verify succeeds iff digest matches; Validate iff known type and exact length; encodings round-trip; non-trivial = anything but (known type, correct digest)",
 	Assumptions: []string{"(UNKNOWN, empty digest) passing Validate is counted, not asserted (the code whitelists the zero value and offers IsEmpty)"},
 	Gen:         genC15,
